@@ -203,5 +203,5 @@ def _min_error_dual(
     problem.set_objective("min", picos.trace(y_var))
     solution = problem.solve(solver=solver)
 
-    measurements = [problem.get_constraint(k).dual for k in range(len(vectors))]
+    measurements = [problem.get_constraint(k).dual.T for k in range(len(vectors))]
     return solution.value, measurements
